@@ -1252,3 +1252,398 @@ func RefineAtoms(b *ssa.BasicBlock, atoms []Atom) []Atom {
 	}
 	return out
 }
+
+// LoopVarEscape is one place where the address of a variable that is re-assigned on every iteration of a loop, but
+// allocated once outside it, is stored into memory inside that loop.
+type LoopVarEscape struct {
+	Name  string
+	Alloc *ssa.Alloc
+	Store ssa.Instruction
+}
+
+// LoopVarEscapes finds kept addresses of shared loop variables.  With a go directive before 1.22 go/ssa allocates the
+// variables of a for/range clause once, before the loop; a cell that escapes is a heap Alloc outside the loop that the
+// loop assigns on every iteration.  Keeping its address (a Store of the Alloc itself, an append or a composite
+// literal holding it, a closure capturing it that is itself stored or started) inside the loop aliases all iterations.
+func LoopVarEscapes(fn *ssa.Function) []LoopVarEscape {
+	var out []LoopVarEscape
+	if len(fn.Blocks) == 0 {
+		return nil
+	}
+	// loops: header -> blocks
+	type loop struct {
+		hdr *ssa.BasicBlock
+		in  map[*ssa.BasicBlock]bool
+	}
+	var loops []loop
+	for _, h := range fn.Blocks {
+		in := map[*ssa.BasicBlock]bool{}
+		var work []*ssa.BasicBlock
+		for _, pr := range h.Preds {
+			if h.Dominates(pr) && !in[pr] {
+				in[pr] = true
+				work = append(work, pr)
+			}
+		}
+		if len(work) == 0 {
+			continue
+		}
+		in[h] = true
+		for len(work) > 0 {
+			b := work[len(work)-1]
+			work = work[:len(work)-1]
+			if b == h {
+				continue
+			}
+			for _, pr := range b.Preds {
+				if !in[pr] {
+					in[pr] = true
+					work = append(work, pr)
+				}
+			}
+		}
+		loops = append(loops, loop{h, in})
+	}
+	if len(loops) == 0 {
+		return nil
+	}
+	for _, b := range fn.Blocks {
+		for _, ins := range b.Instrs {
+			a, ok := ins.(*ssa.Alloc)
+			if !ok || !a.Heap || a.Comment == "" {
+				continue
+			}
+			for _, l := range loops {
+				if l.in[a.Block()] {
+					continue // allocated per iteration
+				}
+				assigned := false
+				for _, r := range *a.Referrers() {
+					if st, ok := r.(*ssa.Store); ok && st.Addr == ssa.Value(a) && l.in[st.Block()] {
+						assigned = true
+					}
+				}
+				if !assigned {
+					continue
+				}
+				for _, r := range *a.Referrers() {
+					if !l.in[r.Block()] {
+						continue
+					}
+					switch x := r.(type) {
+					case *ssa.Store:
+						if x.Val == ssa.Value(a) {
+							out = append(out, LoopVarEscape{a.Comment, a, x})
+						}
+					case *ssa.MakeInterface:
+						for _, rr := range *x.Referrers() {
+							if st, ok := rr.(*ssa.Store); ok && st.Val == ssa.Value(x) {
+								out = append(out, LoopVarEscape{a.Comment, a, st})
+							}
+						}
+					case *ssa.MakeClosure:
+						for _, rr := range *x.Referrers() {
+							switch y := rr.(type) {
+							case *ssa.Store:
+								if y.Val == ssa.Value(x) {
+									out = append(out, LoopVarEscape{a.Comment, a, y})
+								}
+							case *ssa.Go:
+								out = append(out, LoopVarEscape{a.Comment, a, y})
+							}
+						}
+					}
+				}
+			}
+		}
+	}
+	return out
+}
+
+// ByteOrigin says where the bytes behind a []byte value may live.
+type ByteOrigin struct {
+	Kind string // "fresh", "param", "receiver", "global", "pool", "unknown"
+	Desc string
+}
+
+// SliceOrigins traces a []byte value back to the storage it may alias: a fresh allocation, a parameter, storage kept
+// in the receiver (an array or slice field, a buffer held in a field), a package-level variable, or a buffer that goes
+// back to a sync.Pool.  Module helpers are entered (their parameters bound to the caller's arguments).
+func SliceOrigins(v ssa.Value) []ByteOrigin {
+	var out []ByteOrigin
+	seen := map[ssa.Value]bool{}
+	add := func(k, d string) {
+		for _, o := range out {
+			if o.Kind == k && o.Desc == d {
+				return
+			}
+		}
+		out = append(out, ByteOrigin{k, d})
+	}
+	var addr func(v ssa.Value, bind map[*ssa.Parameter]ssa.Value, d int)
+	var buf func(v ssa.Value, bind map[*ssa.Parameter]ssa.Value, d int)
+	var walk func(v ssa.Value, bind map[*ssa.Parameter]ssa.Value, d int)
+	// storage designated by an address (of an array, a struct field)
+	addr = func(v ssa.Value, bind map[*ssa.Parameter]ssa.Value, d int) {
+		switch x := v.(type) {
+		case *ssa.Alloc:
+			add("fresh", "local "+x.Comment)
+		case *ssa.Global:
+			add("global", x.Name())
+		case *ssa.FieldAddr, *ssa.IndexAddr:
+			root := PathRoot(x)
+			if par, ok := root.(*ssa.Parameter); ok {
+				if b, has := bind[par]; has {
+					// a field of the caller's argument
+					if bp, isP := StripConv(b).(*ssa.Parameter); isP && bp.Parent() != nil && len(bp.Parent().Params) > 0 && bp.Parent().Params[0] == bp && bp.Parent().Signature.Recv() != nil {
+						add("receiver", TypedPath(x))
+					} else if _, isAlloc := StripConv(b).(*ssa.Alloc); isAlloc {
+						add("fresh", "field of a local")
+					} else {
+						add("unknown", Path(x))
+					}
+					return
+				}
+				fn := par.Parent()
+				if fn != nil && fn.Signature.Recv() != nil && len(fn.Params) > 0 && fn.Params[0] == par {
+					add("receiver", TypedPath(x))
+				} else {
+					add("param", Path(x))
+				}
+				return
+			}
+			if _, ok := root.(*ssa.Global); ok {
+				add("global", Path(x))
+				return
+			}
+			if _, ok := root.(*ssa.Alloc); ok {
+				add("fresh", "field of a local")
+				return
+			}
+			add("unknown", Path(x))
+		default:
+			add("unknown", Path(v))
+		}
+	}
+	// a *bytes.Buffer (or an interface holding one) whose Bytes() is handed out
+	buf = func(v ssa.Value, bind map[*ssa.Parameter]ssa.Value, d int) {
+		if d > 10 {
+			add("unknown", "depth")
+			return
+		}
+		switch x := v.(type) {
+		case *ssa.Alloc:
+			kept := ""
+			var refs func(w ssa.Value, dd int)
+			refs = func(w ssa.Value, dd int) {
+				if dd > 3 || w.Referrers() == nil {
+					return
+				}
+				for _, r := range *w.Referrers() {
+					switch y := r.(type) {
+					case *ssa.MakeInterface:
+						refs(y, dd+1)
+					case *ssa.ChangeInterface:
+						refs(y, dd+1)
+					case *ssa.Store:
+						if y.Val == w {
+							if _, isF := y.Addr.(*ssa.FieldAddr); isF && !FreshBase(y.Addr) {
+								kept = "stored in " + TypedPath(y.Addr)
+							}
+						}
+					case ssa.CallInstruction:
+						if cal := y.Common().StaticCallee(); cal != nil && FullName(cal) == "(*sync.Pool).Put" {
+							kept = "put back into a sync.Pool"
+						}
+					}
+				}
+			}
+			refs(x, 0)
+			if kept != "" {
+				add("pool", "buffer "+kept)
+			} else {
+				add("fresh", "local buffer")
+			}
+		case *ssa.FieldAddr, *ssa.IndexAddr:
+			addr(v, bind, d+1) // a buffer embedded in a struct: &v.b
+		case *ssa.MakeInterface:
+			buf(x.X, bind, d+1)
+		case *ssa.ChangeInterface:
+			buf(x.X, bind, d+1)
+		case *ssa.TypeAssert:
+			buf(x.X, bind, d+1)
+		case *ssa.Extract:
+			buf(x.Tuple, bind, d+1)
+		case *ssa.Phi:
+			if seen[v] {
+				return
+			}
+			seen[v] = true
+			for _, e := range x.Edges {
+				buf(e, bind, d+1)
+			}
+		case *ssa.UnOp:
+			if x.Op == token.MUL {
+				addr(x.X, bind, d+1)
+				return
+			}
+			add("unknown", Path(v))
+		case *ssa.Parameter:
+			if b, ok := bind[x]; ok {
+				buf(b, nil, d+1)
+				return
+			}
+			add("param", ParamName(x))
+		case *ssa.Call:
+			cal := x.Call.StaticCallee()
+			if cal != nil && FullName(cal) == "(*sync.Pool).Get" {
+				add("pool", "buffer taken from a sync.Pool")
+				return
+			}
+			if cal != nil && (FullName(cal) == "bytes.NewBuffer" || FullName(cal) == "bytes.NewBufferString") {
+				add("fresh", "bytes.NewBuffer")
+				return
+			}
+			if cal != nil && InModule(cal) && len(cal.Blocks) > 0 {
+				nb := map[*ssa.Parameter]ssa.Value{}
+				for i, p := range cal.Params {
+					if i < len(x.Call.Args) {
+						nb[p] = x.Call.Args[i]
+					}
+				}
+				for _, r := range Returns(cal) {
+					if len(r.Results) > 0 {
+						buf(r.Results[0], nb, d+1)
+					}
+				}
+				return
+			}
+			add("unknown", Path(v))
+		default:
+			add("unknown", Path(v))
+		}
+	}
+	walk = func(v ssa.Value, bind map[*ssa.Parameter]ssa.Value, d int) {
+		if d > 10 {
+			add("unknown", "depth")
+			return
+		}
+		switch x := v.(type) {
+		case *ssa.Const:
+			add("fresh", "nil")
+		case *ssa.MakeSlice:
+			add("fresh", "make")
+		case *ssa.Convert:
+			if _, isStr := x.X.Type().Underlying().(*types.Basic); isStr {
+				add("fresh", "converted string")
+				return
+			}
+			walk(x.X, bind, d+1)
+		case *ssa.ChangeType:
+			walk(x.X, bind, d+1)
+		case *ssa.Slice:
+			if _, isPtr := x.X.Type().Underlying().(*types.Pointer); isPtr {
+				addr(x.X, bind, d+1)
+				return
+			}
+			walk(x.X, bind, d+1)
+		case *ssa.Phi:
+			if seen[v] {
+				return
+			}
+			seen[v] = true
+			for _, e := range x.Edges {
+				walk(e, bind, d+1)
+			}
+		case *ssa.Extract:
+			if call, ok := x.Tuple.(*ssa.Call); ok {
+				if cal := call.Call.StaticCallee(); cal != nil && InModule(cal) && len(cal.Blocks) > 0 {
+					nb := map[*ssa.Parameter]ssa.Value{}
+					for i, p := range cal.Params {
+						if i < len(call.Call.Args) {
+							nb[p] = call.Call.Args[i]
+						}
+					}
+					for _, r := range Returns(cal) {
+						if x.Index < len(r.Results) {
+							walk(r.Results[x.Index], nb, d+1)
+						}
+					}
+					return
+				}
+			}
+			add("unknown", Path(v))
+		case *ssa.UnOp:
+			if x.Op == token.MUL {
+				// a slice kept in memory: a field of the receiver, a global, a local cell
+				if a, ok := x.X.(*ssa.Alloc); ok {
+					n := 0
+					for _, r := range *a.Referrers() {
+						if st, ok := r.(*ssa.Store); ok && st.Addr == ssa.Value(a) {
+							n++
+							walk(st.Val, bind, d+1)
+						}
+					}
+					if n == 0 {
+						add("fresh", "zero value")
+					}
+					return
+				}
+				addr(x.X, bind, d+1)
+				return
+			}
+			add("unknown", Path(v))
+		case *ssa.Parameter:
+			if b, ok := bind[x]; ok {
+				walk(b, nil, d+1)
+				return
+			}
+			add("param", ParamName(x))
+		case *ssa.Call:
+			if b, ok := x.Call.Value.(*ssa.Builtin); ok {
+				if b.Name() == "append" {
+					walk(x.Call.Args[0], bind, d+1)
+					return
+				}
+				add("unknown", b.Name())
+				return
+			}
+			if x.Call.IsInvoke() {
+				if x.Call.Method.Name() == "Bytes" {
+					buf(x.Call.Value, bind, d+1)
+					return
+				}
+				add("unknown", "invoke "+x.Call.Method.Name())
+				return
+			}
+			cal := x.Call.StaticCallee()
+			if cal == nil {
+				add("unknown", "dynamic call")
+				return
+			}
+			if FullName(cal) == "(*bytes.Buffer).Bytes" {
+				buf(x.Call.Args[0], bind, d+1)
+				return
+			}
+			if InModule(cal) && len(cal.Blocks) > 0 {
+				nb := map[*ssa.Parameter]ssa.Value{}
+				for i, p := range cal.Params {
+					if i < len(x.Call.Args) {
+						nb[p] = x.Call.Args[i]
+					}
+				}
+				for _, r := range Returns(cal) {
+					if len(r.Results) > 0 {
+						walk(r.Results[0], nb, d+1)
+					}
+				}
+				return
+			}
+			add("fresh", "result of "+FullName(cal))
+		default:
+			add("unknown", Path(v))
+		}
+	}
+	walk(v, nil, 0)
+	return out
+}
